@@ -665,8 +665,14 @@ class C19(core.PropertyCheck):
         unsupported = "UnsupportedFormat" in on_toml
         bundled = impl["bundle_bytes"]
         if not have or b is None:
-            if unsupported or bundled:
+            # nothing was rendered: nothing is bundled, but a bundle name of an unknown format is a mistake in the configuration
+            # whether or not there is anything to put into it
+            if bundled:
                 return f"build_manpages-bundle: nothing to bundle but {on_toml} {impl['files']}"
+            if b in self.BAD_BUNDLES and not unsupported:
+                return f"build_manpages-bundle: unknown format {b!r} not reported (no man page rendered)"
+            if (b is None or b in self.GOOD_BUNDLES) and unsupported:
+                return f"build_manpages-bundle: {b!r} reported as unsupported"
         else:
             if unsupported == bundled:
                 return f"build_manpages-bundle: bundle {b!r}: diagnostic={unsupported} bundled={bundled}"
